@@ -2,6 +2,7 @@ import SodiumModel.Driver.Common
 import SodiumModel.Driver.C01
 import SodiumModel.Driver.C03
 import SodiumModel.Driver.C05
+import SodiumModel.Model.Overlap
 /-
   C13: the answers for overlapping / in-place calls are, by the property, the answers of the same
   calls on disjoint buffers — so these handlers ignore the placement argument and evaluate the
@@ -17,7 +18,83 @@ def openLine (r : DecResult) : String :=
   | 0, some m => s!"0 {toHex m}"
   | _, _ => "-1 -"
 
-def handle (op : String) (args : List String) : Option String :=
+/-! Pointer-level evaluation (Model/Overlap.lean): for data up to `ptrMax` bytes the ops are answered by the
+    flat-memory model of the C code at the SAME relative placement the harness uses (output = input + delta),
+    so that the model the C13 theorems are about is the one compared with the implementation. Longer data use
+    the value-level model (theorems `*_overlap` say the two agree). -/
+def ptrMax : Nat := 100
+def inBase : Nat := 8192
+def nonceA : Nat := 1000000
+def keyA : Nat := 1000100
+def macA : Nat := 1000200
+
+def parseDelta (s : String) : Option Int :=
+  if s.startsWith "-" then (s.drop 1).toNat?.map fun n => -(Int.ofNat n) else s.toNat?.map Int.ofNat
+
+/-- arena like the harness: input at `inA`, output at `inA + delta`, everything else 0x5c; nonce / key / mac far away -/
+def mkMem (inA : Nat) (data n k mac : Bytes) : Overlap.Mem :=
+  let d := data.toArray; let na := n.toArray; let ka := k.toArray; let ma := mac.toArray
+  fun a =>
+    if inA ≤ a ∧ a < inA + d.size then d.getD (a - inA) 0
+    else if nonceA ≤ a ∧ a < nonceA + na.size then na.getD (a - nonceA) 0
+    else if keyA ≤ a ∧ a < keyA + ka.size then ka.getD (a - keyA) 0
+    else if macA ≤ a ∧ a < macA + ma.size then ma.getD (a - macA) 0
+    else 0x5c
+
+def placement (delta : Int) : Nat × Nat :=
+  let inA := inBase + (if delta < 0 then delta.natAbs else 0)
+  (inA, (Int.ofNat inA + delta).toNat)
+
+def ptrSecretbox (v mode : String) (delta : Int) (data n k mac : Bytes) : String :=
+  let P := prims v
+  let (inA, outA) := placement delta
+  let mem := mkMem inA data n k mac
+  let stk := zeros 64
+  match mode with
+  | "easy" => match Overlap.secretboxEasy P stk mem outA inA data.length nonceA keyA with
+    | some m' => s!"0 {toHex (Overlap.read m' outA (data.length + 16))}"
+    | none => "MODEL-UNDEFINED"
+  | "detached" => match Overlap.secretboxDetached P stk mem outA macA inA data.length nonceA keyA with
+    | some m' => s!"0 {toHex (Overlap.read m' outA data.length)} {toHex (Overlap.read m' macA 16)}"
+    | none => "MODEL-UNDEFINED"
+  | "open" => match Overlap.secretboxOpenEasy P stk mem outA inA data.length nonceA keyA with
+    | (0, some m') => s!"0 {toHex (Overlap.read m' outA (data.length - 16))}"
+    | (_, some _) => "-1 -"
+    | (_, none) => "MODEL-UNDEFINED"
+  | _ => match Overlap.secretboxOpenDetached P stk mem outA inA macA data.length nonceA keyA with
+    | (0, some m') => s!"0 {toHex (Overlap.read m' outA data.length)}"
+    | (_, some _) => "-1 -"
+    | (_, none) => "MODEL-UNDEFINED"
+
+def ptrSign (delta : Int) (m sk : Bytes) : String :=
+  let (inA, outA) := placement delta
+  let mem := mkMem inA m [] sk []
+  let (m', l) := Overlap.sign (fun msg key => Ed25519.sign Sodium.Driver.C05.sha512 (key.take 32) msg) mem outA inA m.length keyA
+  s!"0 {toHex (Overlap.read m' outA l)}"
+
+def ptrSignOpen (delta : Int) (sm pk : Bytes) : String :=
+  let (inA, outA) := placement delta
+  let mem := mkMem inA sm [] pk []
+  match Overlap.signOpen (fun sig msg key => Ed25519.verifyStrict Sodium.Driver.C05.sha512 sig msg key) mem outA inA sm.length keyA with
+  | (0, l, m') => s!"0 {l} {toHex (Overlap.read m' outA l)}"
+  | (_, _, _) => "-1 0 -"
+
+def handlePtr (op : String) (args : List String) : Option String :=
+  match op.splitOn ".", args with
+  | ["ovl", "secretbox", v, mode], d :: data :: n :: k :: rest => do
+    let delta ← parseDelta d; let data ← ofHex data
+    if data.length > ptrMax then none else
+    let mac ← (match rest with | [mac] => ofHex mac | _ => some [])
+    some (ptrSecretbox v mode delta data (← ofHex n) (← ofHex k) mac)
+  | ["ovl", "sign"], [d, m, sk] => do
+    let delta ← parseDelta d; let m ← ofHex m
+    if m.length > ptrMax then none else some (ptrSign delta m (← ofHex sk))
+  | ["ovl", "sign_open"], [d, sm, pk] => do
+    let delta ← parseDelta d; let sm ← ofHex sm
+    if sm.length > ptrMax ∨ sm.length < 64 then none else some (ptrSignOpen delta sm (← ofHex pk))
+  | _, _ => none
+
+def handleVal (op : String) (args : List String) : Option String :=
   match op.splitOn ".", args with
   | ["ovl", "secretbox", v, "easy"], [_, m, n, k] => do some s!"0 {toHex (secretboxEasy (prims v) (← ofHex m) (← ofHex n) (← ofHex k))}"
   | ["ovl", "secretbox", v, "open"], [_, c, n, k] => do some (openLine (secretboxOpenEasy (prims v) true (← ofHex c) (← ofHex n) (← ofHex k)))
@@ -49,5 +126,10 @@ def handle (op : String) (args : List String) : Option String :=
   | ["aead", a, "encip"], xs => Sodium.Driver.C01.handle s!"aead.{a}.enc" xs
   | ["aead", a, "decip"], xs => Sodium.Driver.C01.handle s!"aead.{a}.dec" ("1" :: xs)
   | _, _ => none
+
+def handle (op : String) (args : List String) : Option String :=
+  match handlePtr op args with
+  | some r => some r
+  | none => handleVal op args
 
 end Sodium.Driver.C13
